@@ -22,6 +22,7 @@ props_for() {
     cache/*|internal/pathlock/*) echo "C10 C11 C16 C17 C05 C04";;
     tar/*) echo "C12 C13 C05 C04";;
     os/*) echo "C01 C02 C05 C04 C07 C08 C16";;
+    fstest/*) echo "C20";;
     *) echo "C08 C07 C05 C04 C06 C01";;
   esac
 }
